@@ -77,6 +77,22 @@ signal.signal(signal.SIGTERM, _sigterm)
 _built = {}
 
 
+def _modargs():
+    """The harness module replaces github.com/modernizing/coca => /repo. When VERIF_REPO points
+    elsewhere (scratch worktrees used to try seeded changes without touching /repo) an alternative
+    go.mod with that path is generated and passed with -modfile."""
+    _sync_gosum()
+    if os.path.abspath(REPO) == "/repo":
+        return [], ""
+    tag = hashlib.sha1(os.path.abspath(REPO).encode()).hexdigest()[:8]
+    d = os.path.join(BUILD, "mod-" + tag)
+    os.makedirs(d, exist_ok=True)
+    gm = open(os.path.join(HARNESS, "go.mod")).read().replace("=> /repo", "=> " + os.path.abspath(REPO))
+    open(os.path.join(d, "go.mod"), "w").write(gm)
+    shutil.copy(os.path.join(HARNESS, "go.sum"), os.path.join(d, "go.sum"))
+    return ["-modfile=" + os.path.join(d, "go.mod")], "-" + tag
+
+
 def _sync_gosum():
     src = os.path.join(REPO, "go.sum")
     dst = os.path.join(HARNESS, "go.sum")
@@ -90,38 +106,30 @@ def _sync_gosum():
         raise NoVerdict("go.sum sync failed: %s" % e)
 
 
-def build_harness(name):
-    """go build -tags verif ./cmd/<name> against /repo's current working tree."""
-    if name in _built:
-        return _built[name]
+def _gobuild(key, pkg, what):
+    if key in _built:
+        return _built[key]
     os.makedirs(BUILD, exist_ok=True)
-    _sync_gosum()
-    out = os.path.join(BUILD, name)
+    margs, suffix = _modargs()
+    out = os.path.join(BUILD, key + suffix)
     t0 = time.time()
-    p = subprocess.run(["go", "build", "-tags", "verif", "-o", out, "./cmd/" + name],
+    p = subprocess.run(["go", "build"] + margs + ["-tags", "verif", "-o", out, pkg],
                        cwd=HARNESS, env=GOENV, capture_output=True, text=True)
     if p.returncode != 0:
-        raise NoVerdict("harness %s does not build against the current tree:\n%s" % (name, p.stderr[-4000:]))
-    log("[build] harness %s %.1fs" % (name, time.time() - t0))
-    _built[name] = out
+        raise NoVerdict("%s does not build against the current tree (%s):\n%s" % (what, REPO, p.stderr[-4000:]))
+    log("[build] %s %.1fs" % (what, time.time() - t0))
+    _built[key] = out
     return out
+
+
+def build_harness(name):
+    """go build -tags verif ./cmd/<name> against /repo's current working tree."""
+    return _gobuild(name, "./cmd/" + name, "harness " + name)
 
 
 def build_coca():
     """The coca CLI itself, from /repo's working tree (built through the harness module so /repo/go.mod is untouched)."""
-    if "coca" in _built:
-        return _built["coca"]
-    os.makedirs(BUILD, exist_ok=True)
-    _sync_gosum()
-    out = os.path.join(BUILD, "coca")
-    t0 = time.time()
-    p = subprocess.run(["go", "build", "-tags", "verif", "-o", out, "github.com/modernizing/coca"],
-                       cwd=HARNESS, env=GOENV, capture_output=True, text=True)
-    if p.returncode != 0:
-        raise NoVerdict("coca does not build:\n%s" % p.stderr[-4000:])
-    log("[build] coca %.1fs" % (time.time() - t0))
-    _built["coca"] = out
-    return out
+    return _gobuild("coca", "github.com/modernizing/coca", "coca")
 
 
 # --------------------------------------------------------------------------- TLC
